@@ -89,8 +89,10 @@ ASSUMPTIONS = ['stored samples are labels (small integers exactly representable 
                'spw= / subarray= (multi-window data sets); a call that raises other than the documented TypeError / IndexError '
                'ends the history',
                'multi-window fixtures: centre frequencies a whole number of quarter channels apart (one integer frequency '
-               'grid for all windows); a retune happens dt / 32 after the start of a dump, interior dumps are never early '
-               '(the v2 reader decides the window of a dump on its estimated grid: open finding C01r-F1); files opened '
+               'grid for all windows); a retune happens dt / 32 after the start of a dump that starts at least a full dump period '
+               'after its predecessor (overlapping dumps share that instant and the readers attribute an event to the '
+               'earliest dump it falls in), interior dumps are late, never early (the v2 reader decides the window of a dump '
+               'on its estimated grid: open finding C01r-F1; both grids then agree on every retune); files opened '
                'together: same channel / product counts, no duplicate final dump, regular grids, their stored arrays laid '
                'end to end are the stored array (ConcatenatedLazyIndexer / ConcatenatedSensorCache: C19), only Observation/* '
                'sensors compared',
